@@ -49,6 +49,8 @@ VF u32_t *vf_hash_words(Hashmaster *h, u32_t *n)
 }
 // ---- AES objects
 VF const u8_t *vf_aes_objkey(aeshandle *a) { return a->key.init_key; }
+struct vf_aesprobe : aeshandle { using aeshandle::key; };
+VF u32_t vf_keyhandle_initkey_off(void) { return (u32_t)offsetof(aeshandle::keyhandle, init_key); }
 VF void vf_mode_getiv(Aesmode *m, u8_t *out16) { memcpy(out16, m->iv, 16); }
 VF void vf_mode_run(Aesmode *m, u8_t *block) { m->runcry(block); }
 // ---- pipeline
@@ -56,4 +58,12 @@ VF buffergroup *vf_bg_get(void) { return buffergroup::get_instance(); }
 VF void vf_bg_del(void) { buffergroup::del_instance(); }
 VF int vf_bg_instance_null(void) { return buffergroup::instance == NULL; }
 VF u32_t vf_bg_live(void) { return bufferctrl::live_num; }
+VF u32_t vf_bg_size(void) { return buffergroup::get_instance()->size; }
+VF FILE *vf_bg_fin(void) { return buffergroup::get_instance()->fin; }
+VF FILE *vf_bg_fout(void) { return buffergroup::get_instance()->fout; }
+VF int vf_bg_ispadding(void) { return buffergroup::get_instance()->ispadding; }
+VF u8_t vf_mc_threads(multicry_master *m) { return m->THREADS_NUM; }
+// AesEncrypt/AesDecrypt are private to aesmode.cpp: mirror of their layout (Aesmode base followed by the block-cipher object)
+struct vf_modemirror : Aesmode { encryaes crypt; vf_modemirror(u8_t *k, const u8_t *iv) : Aesmode(iv), crypt(k) {} void runcry(u8_t *) override {} };
+VF const u8_t *vf_mode_key(Aesmode *m) { return reinterpret_cast<vf_modemirror *>(m)->crypt.key.init_key; }
 VF u32_t vf_buf_sz(void) { return iobuffer::BUF_SZ; }
